@@ -109,10 +109,12 @@ def main():
             broken.append(dict(kind='proof', what='make ' + ' '.join(targets), detail=detail[-1500:]))
     cone = lib.dep_cone(f'Props/{prop}.v')
     obligations = lib.count_obligations(cone)
-    discharged = 0
+    def built(f):
+        v, vo = os.path.join(lib.COQ, f), os.path.join(lib.COQ, f[:-2] + '.vo')
+        return os.path.exists(vo) and os.path.getmtime(vo) >= os.path.getmtime(v)
+    discharged = len([o for o in obligations if built(o.split(':')[0])])
     if ok_build:
         ok_as, as_out, assumptions = assumptions_of(prop)
-        discharged = len(obligations) if ok_as else 0
         for blk in assumptions:
             if blk.startswith('Axioms:'):
                 ctx['notes'].append('axioms printed: ' + blk[:400])
